@@ -14,6 +14,11 @@
  *   S8: S1 with a second NUMA node (os_index 2) attached to Package0: heterogeneous memory, a node does not own its parent's nodeset
  *   S9: flat: Machine{ PU0 PU1 PU2 PU5 +NUMA0 }: every subset of the PUs is a legal new Group
  *   S10: S1's packages and PUs with a single NUMA node attached to the machine (the node intersects every package, is inside none)
+ *   S11: S1 with Misc objects below Package1, below NUMA#1 and below PU#5 (a removed memory object hands its Misc children to a parent that has its own)
+ *   S12: interleaved numbering with a disallowed first PU: Package0{PU0 PU2} Package1{PU1 PU3}, PU0 disallowed, one NUMA node: children are
+ *        ordered by complete_cpuset, which differs from the cpuset order
+ *   S13: Machine{ Group{Core{PU0} Core{PU1} +NUMA0 +Misc} Group{Core{PU2} Core{PU5} +NUMA1} } (+Misc below Core0): a restrict that leaves one Core per
+ *        Group makes the Group level redundant: it is merged away and its memory and Misc children move to the Cores
  *   S6: asymmetric, L2 filtered KEEP_STRUCTURE: Package0{L2{PU0}} Package1{L2{Core{PU1}}} Package2{Core{PU2}} +NUMA0 on the machine:
  *       the L2 and Core levels have the same width and only arity-1 parents but are NOT pairwise parent/child: nothing may be merged
  *   S7: L2 filtered KEEP_STRUCTURE above a Core with the same cpuset, twice: L2{Core{PU0 PU1} +NUMA0} L2{Core{PU2 PU5} +NUMA1}:
@@ -67,7 +72,7 @@ struct vp_seed {
   unsigned long cpus, nodes;           /* root cpuset / nodeset words */
 };
 static struct vp_seed vp_seed;
-static int vp_seed_id, vp_seed_err;
+static int vp_seed_id, vp_seed_err, vp_seed_prepare_only;
 static unsigned long vp_seed_flags;
 
 static hwloc_obj_t vp_ins(struct hwloc_topology *t, hwloc_obj_type_t ty, unsigned idx, unsigned long cpus, unsigned long nodes)
@@ -143,7 +148,22 @@ static int vp_seed_discover(struct hwloc_backend *b, struct hwloc_disc_status *d
     s->numa[0] = vp_ins(t, HWLOC_OBJ_NUMANODE, 0, 0x27, 0x1);
     return 0;
   }
-  if (vp_seed_id == 1 || vp_seed_id == 4 || vp_seed_id == 8) {
+  if (vp_seed_id == 12) {
+    s->pu[0] = vp_ins(t, HWLOC_OBJ_PU, 0, 0x1, 0); s->pu[1] = vp_ins(t, HWLOC_OBJ_PU, 1, 0x2, 0); s->pu[2] = vp_ins(t, HWLOC_OBJ_PU, 2, 0x4, 0); s->pu[3] = vp_ins(t, HWLOC_OBJ_PU, 3, 0x8, 0);
+    s->pkg[0] = vp_ins(t, HWLOC_OBJ_PACKAGE, 0, 0x5, 0); s->pkg[1] = vp_ins(t, HWLOC_OBJ_PACKAGE, 1, 0xa, 0);
+    s->numa[0] = vp_ins(t, HWLOC_OBJ_NUMANODE, 0, 0xf, 0x1);
+    hwloc_bitmap_clr(t->allowed_cpuset, 0);
+    return 0;
+  }
+  if (vp_seed_id == 13) {
+    s->pu[0] = vp_ins(t, HWLOC_OBJ_PU, 0, 0x01, 0); s->pu[1] = vp_ins(t, HWLOC_OBJ_PU, 1, 0x02, 0); s->pu[2] = vp_ins(t, HWLOC_OBJ_PU, 2, 0x04, 0); s->pu[3] = vp_ins(t, HWLOC_OBJ_PU, 5, 0x20, 0);
+    s->core[0] = vp_ins(t, HWLOC_OBJ_CORE, 0, 0x01, 0); s->core[1] = vp_ins(t, HWLOC_OBJ_CORE, 1, 0x02, 0); vp_ins(t, HWLOC_OBJ_CORE, 2, 0x04, 0); vp_ins(t, HWLOC_OBJ_CORE, 3, 0x20, 0);
+    for (unsigned k = 0; k < 2; k++) { hwloc_obj_t g = hwloc_alloc_setup_object(t, HWLOC_OBJ_GROUP, HWLOC_UNKNOWN_INDEX); g->cpuset = vp_bm(k ? 0x24 : 0x03); g->attr->group.kind = HWLOC_GROUP_KIND_SYNTHETIC; g->attr->group.subkind = k;
+      hwloc_obj_t r = hwloc__insert_object_by_cpuset(t, NULL, g, NULL); VP_ASSUME(r == g); s->obj[s->nobj++] = g; s->pkg[k] = g; }
+    s->numa[0] = vp_ins(t, HWLOC_OBJ_NUMANODE, 0, 0x03, 0x1); s->numa[1] = vp_ins(t, HWLOC_OBJ_NUMANODE, 1, 0x24, 0x2);
+    return 0;
+  }
+  if (vp_seed_id == 1 || vp_seed_id == 4 || vp_seed_id == 8 || vp_seed_id == 11) {
     s->pu[0] = vp_ins(t, HWLOC_OBJ_PU, 0, 0x01, 0); s->pu[1] = vp_ins(t, HWLOC_OBJ_PU, 1, 0x02, 0);
     s->pu[2] = vp_ins(t, HWLOC_OBJ_PU, 2, 0x04, 0); s->pu[3] = vp_ins(t, HWLOC_OBJ_PU, 5, 0x20, 0);
     s->pkg[0] = vp_ins(t, HWLOC_OBJ_PACKAGE, 0, 0x03, 0); s->pkg[1] = vp_ins(t, HWLOC_OBJ_PACKAGE, 1, 0x24, 0);
@@ -170,6 +190,8 @@ static int vp_seed_discover_io(struct hwloc_backend *b, struct hwloc_disc_status
 #ifdef VP_SEED_IO_HOOK
   if (vp_seed_id >= 100) return VP_SEED_IO_HOOK(b, d);
 #endif
+  if (vp_seed_id == 11) { vp_ins_child(t, s->pkg[1], HWLOC_OBJ_MISC, HWLOC_UNKNOWN_INDEX); vp_ins_child(t, s->numa[1], HWLOC_OBJ_MISC, HWLOC_UNKNOWN_INDEX); s->misc = vp_ins_child(t, s->pu[3], HWLOC_OBJ_MISC, HWLOC_UNKNOWN_INDEX); return 0; }
+  if (vp_seed_id == 13) { vp_ins_child(t, s->pkg[0], HWLOC_OBJ_MISC, HWLOC_UNKNOWN_INDEX); s->misc = vp_ins_child(t, s->core[0], HWLOC_OBJ_MISC, HWLOC_UNKNOWN_INDEX); return 0; }
   if (vp_seed_id != 2) return 0;
   s->bridge = vp_ins_child(t, s->pkg[0], HWLOC_OBJ_BRIDGE, HWLOC_UNKNOWN_INDEX);
   s->bridge->attr->bridge.upstream_type = HWLOC_OBJ_BRIDGE_HOST; s->bridge->attr->bridge.downstream_type = HWLOC_OBJ_BRIDGE_PCI;
@@ -230,12 +252,13 @@ static struct hwloc_topology *vp_seed_build(int id, unsigned long flags)
   vp_comp.name = id >= 200 ? "xml" : "vpseed";      /* the core treats the XML backend specially (no hwlocVersion/ProcessName infos, no memory-tier guess) */ vp_be.component = &vp_comp; vp_be.topology = t;
   vp_be.phases = HWLOC_DISC_PHASE_GLOBAL; vp_be.discover = vp_seed_discover;
   t->backends = &vp_be; t->backend_phases = HWLOC_DISC_PHASE_GLOBAL;
+  if (vp_seed_prepare_only) { t->state = HWLOC_TOPOLOGY_STATE_IS_INIT; vp_seed.topology = t; return t; }      /* what hwloc_topology_init + set_xml... leave: the caller runs the real hwloc_topology_load */
   struct hwloc_disc_status ds; memset(&ds, 0, sizeof ds);
   int err = hwloc_discover(t, &ds);
   vp_seed_err = err;
   if (id >= 200 && err < 0) { vp_seed.topology = t; return t; }      /* a backend that may refuse its input: the caller looks at vp_seed_err */
   VP_ASSUME(err == 0);
-  if (id == 2 || (id >= 100 && id < 200)) {
+  if (id == 2 || id == 11 || id == 13 || (id >= 100 && id < 200)) {
     /* IO/Misc attachment + reconnect, exactly what the later discovery phases do */
     vp_seed_discover_io(&vp_be, &ds);
     err = hwloc__reconnect(t, 0);
